@@ -17,6 +17,8 @@ where
         "algebra" => symf::algebra::family::<F>(ctx),
         "gates" => symf::gates::family::<F>(ctx),
         "fri" => symf::fri::family::<F>(ctx),
+        "lookup" => symf::lookup::family::<F>(ctx),
+        "merkle" => symf::merkle::family::<F>(ctx),
         "plonk" => symf::plonk::family::<F>(ctx),
         "plonkv" => symf::plonkv::family::<F>(ctx),
         "stark" => symf::stark::family::<F>(ctx),
